@@ -1,3 +1,4 @@
+(* Items have exactly the words of their size; the cycle an in-place growing realloc can trigger. *)
 From C10 Require Import Model Proofs Safety Defects Frame Finalize Exit Garbage AllocSafe Abort OpFrame.
 Local Open Scope Z_scope.
 
